@@ -97,7 +97,8 @@ func main() {
 			"motif|load-to-saddr": int64(c.N(5, 20)), "motif|reread-across-load-return": int64(c.N(10, 40)),
 			"motif|lds-read-before-write": int64(c.N(10, 40)),
 			"host|one-context":            int64(c.N(50, 500)), "host|worker-launches-main-copies": int64(c.N(2, 10)), "host|main-launches-worker-copies": int64(c.N(2, 10)),
-			"host|three-sibling-contexts": int64(c.N(2, 10)), "host|two-processes": int64(c.N(2, 10)), "host|re-upload-between-kernels": int64(c.N(2, 10))},
+			"host|three-sibling-contexts": int64(c.N(2, 10)), "host|drain-per-kernel": int64(c.N(10, 100)), "host|enqueue-all-then-drain": int64(c.N(2, 10)),
+			"motif|scalar-reread-of-kernel-written-data": int64(c.N(20, 100)), "host|two-processes": int64(c.N(2, 10)), "host|re-upload-between-kernels": int64(c.N(2, 10))},
 	})
 }
 
@@ -231,6 +232,22 @@ func probeSpec(arch, f string) ProgSpec {
 		if f == "reup" {
 			force = append(force, "host_three")
 		}
+	case "smem_dev":
+		// chain K0 -> A, K1 -> B, K2 -> A, ...: every kernel scalar-loads (and, as
+		// the control, flat-loads) what the previous one stored; 32 one-wavefront
+		// groups per kernel, so that kernel i+2 runs on the compute units (shader
+		// arrays) kernel i used (round-robin over 64; on the 120 of the mi300a
+		// kernel i+4 does); every kernel is drained before the next is launched
+		sp := ProgSpec{ID: "probe-" + arch + "-" + f, Arch: arch, Seed: hash64("C02/probe/" + f), Allow: append(allow, "xkernel"), Force: []string{f}, Probe: f,
+			Geo: &Launch{Grid: [3]uint32{32 * 16, 1, 1}, WG: [3]uint16{16, 1, 1}}, Chain: 5,
+			Script: []string{"sdev 1 0 0", "sdev 4 16 0", "sdev 2 40 1", "sdev 8 64 0", "ldr dword 0 0", "ldr x4 16 1", "wait", "fold 1 0", "fold 4 1"}}
+		if arch == "cdna3" {
+			sp.Chain = 6
+		}
+		return sp
+	case "host_enqueue_all":
+		allow = append(allow, "multi_kernel", "smem_x4", "ld_x4", "st_x4")
+		force = append(force, "multi_kernel")
 	case "host_2proc":
 		// 64 one-wavefront work-groups per process: the second process runs on
 		// compute units the first one has used, and (64 compute units in the
@@ -341,9 +358,9 @@ func (o *orch) run() {
 			}
 			sp := probeSpec(p.Arch, f)
 			ts := []PlatSpec{p.Timing}
-			if f == "slot_recycle_small" || f == "oversub" {
+			if f == "slot_recycle_small" || f == "oversub" || f == "smem_dev" {
 				ts = smallVariants(p)
-				if f == "oversub" {
+				if f == "oversub" || f == "smem_dev" {
 					ts = append([]PlatSpec{p.Timing}, ts...)
 				}
 			}
